@@ -489,15 +489,35 @@ var (
 )
 
 type failingReader struct {
-	r     io.Reader
-	after int
-	n     int
+	r      io.Reader
+	after  int
+	n      int
+	onFail func() // a broken client connection also cancels the request context
 }
 
 var errInjected = errors.New("injected body failure")
 
+// slowReader trickles its data one small read at a time.
+type slowReader struct {
+	data  []byte
+	delay time.Duration
+}
+
+func (s *slowReader) Read(p []byte) (int, error) {
+	if len(s.data) == 0 {
+		return 0, io.EOF
+	}
+	time.Sleep(s.delay)
+	n := copy(p, s.data[:min(len(s.data), 7)])
+	s.data = s.data[n:]
+	return n, nil
+}
+
 func (f *failingReader) Read(p []byte) (int, error) {
 	if f.n >= f.after {
+		if f.onFail != nil {
+			f.onFail()
+		}
 		return 0, errInjected
 	}
 	if len(p) > f.after-f.n {
@@ -657,6 +677,63 @@ func CheckStress(p SPlan) ([]evid.Violation, int, int) {
 					if res.Rec.Code != 200 || !bytes.Equal(res.Rec.Body.Bytes(), data) || res.Hdr.Get("Content-Type") != "application/x-c13" {
 						report("HttpBody call %d: status %d, %d bytes back for %d sent, type %q", id, res.Rec.Code, res.Rec.Body.Len(), len(data), res.Hdr.Get("Content-Type"))
 					}
+				case 6: // proxied bidi stream, optionally with the client or the backend failing first
+					n := 1 + next(4)
+					failAt := -1
+					mode := next(4) // 0,1 = clean; 2 = backend fails first; 3 = client body fails first
+					var body bytes.Buffer
+					for seq := 0; seq < n; seq++ {
+						m := payload(w, id, seq, []int{0, 10, 64, 700, 5000}[next(5)])
+						if mode == 2 && seq == n-1 {
+							m.Set(m.Descriptor().Fields().ByName("f_int32"), protoreflect.ValueOfInt32(999))
+							failAt = seq
+						}
+						b, _ := proto.Marshal(m)
+						body.Write(drive.GRPCFrame(b, next(3) == 0 && false))
+					}
+					req := drive.GRPCRequest("/un.SvcS/Chat", nil, bytes.NewReader(body.Bytes()), "application/grpc")
+					if mode == 3 {
+						faults.Add(1)
+						ctx, cancel := context.WithCancel(context.Background())
+						defer cancel()
+						req = req.WithContext(ctx)
+						req.Body = io.NopCloser(&failingReader{r: req.Body, after: 3 + next(60), onFail: cancel})
+					}
+					if mode == 2 {
+						faults.Add(1)
+						// the backend fails on the LAST message while the client is
+						// still (slowly) sending: the proxy's request pump is then
+						// still running when the handler returns
+						m := payload(w, id, n, 10)
+						b, _ := proto.Marshal(m)
+						tail := drive.GRPCFrame(b, false)
+						req.Body = io.NopCloser(io.MultiReader(req.Body, &slowReader{data: bytes.Repeat(tail, 3), delay: time.Duration(50+next(400)) * time.Microsecond}))
+					}
+					res := drive.Serve(mux, req)
+					if res.Panic != nil {
+						report("panic in proxied stream: %v", res.Panic)
+						break
+					}
+					replies, err := decodeReplies(w, CallSpec{Transport: "grpc"}, res)
+					want := n
+					if failAt >= 0 {
+						want = failAt
+					}
+					if mode == 3 {
+						want = -1 // a prefix
+					}
+					if err != nil || (want >= 0 && len(replies) != want) {
+						report("proxied stream %d: %d replies, want %d (mode %d), err %v, grpc-status %q", id, len(replies), want, mode, err, res.Trailer.Get("Grpc-Status"))
+						break
+					}
+					for seq, r := range replies {
+						if mid, mseq, verr := verify(r); verr != nil || mid != id || mseq != seq {
+							report("proxied stream %d reply %d verifies as (%d,%d,%v)", id, seq, mid, mseq, verr)
+						}
+					}
+					if mode == 2 && res.Trailer.Get("Grpc-Status") != "10" {
+						report("proxied stream %d: backend failed with Aborted but grpc-status is %q", id, res.Trailer.Get("Grpc-Status"))
+					}
 				default: // proxied unary (HTTP JSON on the backend's annotation route is GET; use the implicit POST route)
 					data := filler(id, 9, []int{0, 10, 64, 900}[next(4)])
 					hdr := http.Header{}
@@ -733,7 +810,7 @@ func TestReplay(t *testing.T) {
 		evid.Report(t, prop, c, vs)
 	case "stress":
 		var vs []evid.Violation
-		for i := 0; i < 10 && len(vs) == 0; i++ {
+		for i := 0; i < 4 && len(vs) == 0; i++ {
 			vs, _, _ = CheckStress(c.Stress)
 		}
 		evid.Report(t, prop, c, vs)
